@@ -30,6 +30,7 @@ type ArrayV struct{ e []*Cell }
 type SliceV struct {
 	cells  []*Cell
 	nonnil bool
+	symLen *Term // len-only override (nd.SymLen)
 }
 type IfaceV struct {
 	t types.Type
